@@ -545,6 +545,12 @@ int main(int argc, char **argv, char **envp)
           if (close((int) c.a) < 0) {
             a.status = errno;
           }
+        } else if (c.a == 9) {
+          // what a program does that tidies up after its parent (closefrom-style):
+          // every descriptor it does not know goes - including whatever the
+          // library uses to notice that this process has ended
+          for (int fd = 3; fd < 1024; fd++)
+            if (fd != g_cmd && fd != g_ack) close(fd);
         }
         break;
       case PUP_EXIT:
@@ -593,6 +599,24 @@ int main(int argc, char **argv, char **envp)
         send_ack(&a);
         do_run(&c);
         break;
+      case PUP_HOLDER: {
+        snprintf(path, sizeof(path), "%s/holder", g_ctl);
+        mkfifo(path, 0600);
+        pid_t h = fork();
+        if (h == 0) {
+          int keep = (int) c.a;
+          for (int fd = 0; fd < 1024; fd++)
+            if (fd != keep) close(fd);
+          alarm(60);
+          int f = open(path, O_RDONLY);
+          char cmdc = 'x';
+          if (f >= 0 && read(f, &cmdc, 1) == 1 && cmdc == 'w') (void) !write(keep, "late\n", 5);
+          _exit(0);
+        }
+        a.status = h < 0 ? errno : 0;
+        a.v[0] = (uint64_t) h;
+        break;
+      }
       case PUP_FDS: {
         nfds = snapshot_fds(fds, 4096);
         snprintf(path, sizeof(path), "%s/fds", g_ctl);
